@@ -701,10 +701,14 @@ int xcm_attr_getf_str(struct xcm_socket *s, char *value, size_t capacity,
     va_list ap;
     va_start(ap, name_fmt);
 
-    int rc = attr_vgetf_with_type(s, xcm_attr_type_str, value,
-				  capacity, name_fmt, ap);
+    char *name = ut_vasprintf(name_fmt, ap);
 
     va_end(ap);
+
+    int rc = xcm_attr_get_str(s, name, value, capacity);
+
+    ut_free(name);
+
     return rc;
 }
 
@@ -714,10 +718,14 @@ int xcm_attr_getf_bin(struct xcm_socket *s, void *value, size_t capacity,
     va_list ap;
     va_start(ap, name_fmt);
 
-    int rc = attr_vgetf_with_type(s, xcm_attr_type_bin, value,
-				  capacity, name_fmt, ap);
+    char *name = ut_vasprintf(name_fmt, ap);
 
     va_end(ap);
+
+    int rc = xcm_attr_get_bin(s, name, value, capacity);
+
+    ut_free(name);
+
     return rc;
 }
 
